@@ -273,7 +273,7 @@ def judge_db(model: Dict[str, Any], col: common.Collector, tier: str = "quick",
     for order, rev in variants:
         db, err = load(xml_by_rev[rev], order)
         if err is not None:
-            outcomes.append(((order, rev), ("raise", type(err).__name__)))
+            outcomes.append(((order, rev), ("raise", type(err).__name__, raise_site(err))))
             if not unresolvable and not unclear and not fault_unclear:
                 col.violation(("load-raises-on-valid", type(err).__name__, raise_site(err)),
                               detail(order, rev, error=f"{type(err).__name__}: {err}"[:400]))
@@ -351,6 +351,8 @@ def judge_db(model: Dict[str, Any], col: common.Collector, tier: str = "quick",
         if isinstance(oc, tuple) != isinstance(ident, tuple):
             axis = "layer-order" if (rev and order == outcomes[0][0][0]) else "doc-order"
             fk, fc = fkind, fclass
+            if fault is None:  # name the mechanism by where the (spurious) error came from
+                fc = (oc if isinstance(oc, tuple) else ident)[2]
             if fault and (fault["class"] == "leak" or fclass.endswith("+imported-elsewhere")):
                 fk, fc = "ODXLINK", FOREIGN_IMPORT
             col.violation(("order-dependent", fk, fc, axis, "raise-vs-load"),
